@@ -833,6 +833,23 @@ def gen_cases(prop, tier, seed):
                     lines = body[:p] + [inl(r)] + body[p:]
                     cases.append(Case("c04/%d/ins%d_%d" % (i, k, j), lines,
                                       tags={"group": "c04/%d" % i, "role": "variant", "pos": p, "mods": base.tags["mods"]}))
+            # a second answer directly after a final answer, same service and routing tag: whether the
+            # first one was applied or was stray itself, the service owes nothing at that point
+            reps = [q for q in range(hl, len(body)) if body[q].startswith("in 2d31205820") or body[q].startswith("in 2d31207820")]
+            for k, q in enumerate(rng.sample(reps, min(len(reps), 2 if quick else 4))):
+                t = unhx(body[q].split(" ")[1]).rstrip(b"\n").split(b" ")
+                if len(t) < 5 or b"\n" in unhx(body[q].split(" ")[1]).rstrip(b"\n"):
+                    continue
+                first = b" ".join(t[4:])[1:] if t[4].startswith(b":") else t[4]
+                # only after a *final* answer (or an unlinked notice): an unknown reply text is
+                # ignored by the daemon and leaves the service owing its answer
+                if t[1] == b"X" and not (first == b"OK" or first.startswith((b"OK ", b"NO ", b"AGAIN ", b"MORE "))):
+                    continue
+                for j, text in enumerate(rng.sample(["OK", "OK other:7", "NO second opinion", "AGAIN again", "MORE more"], 2)):
+                    dup = b" ".join(t[:4]) + b" :" + text.encode()
+                    lines = body[:q + 1] + ["in " + hx(dup + b"\n")] + body[q + 1:]
+                    cases.append(Case("c04/%d/dup%d_%d" % (i, k, j), lines,
+                                      tags={"group": "c04/%d" % i, "role": "variant", "pos": q + 1, "mods": base.tags["mods"]}))
         return cases
     if prop == "C07":
         n = 150 if quick else 4000
